@@ -165,8 +165,12 @@ class VLock:
 
 
 class VCond:
+    """threading.Condition over the virtual scheduler: waiters queue up in arrival order; notify(n) wakes the first n of them,
+    notify_all() every one (a waiter that timed out has left the queue)"""
+
     def __init__(self, S, on=None):
         self.S, self.m, self.gen, self.on = S, VLock(S, "cond-mutex"), 0, on
+        self.waiters = []
 
     def __enter__(self):
         self.m.acquire(); return self
@@ -175,15 +179,26 @@ class VCond:
         self.m.release()
 
     def wait(self, timeout=None):
-        g = self.gen
+        tok = [False]
+        self.waiters.append(tok)
         self.m.release()
-        r = self.S.block(lambda: self.gen != g, None if timeout is None else self.S.now + timeout, why="cond-wait")
+        r = self.S.block(lambda: tok[0], None if timeout is None else self.S.now + timeout, why="cond-wait")
+        self.waiters[:] = [w for w in self.waiters if w is not tok]      # by identity: tokens compare equal
         if self.on: self.on("wait-return", r)
         self.m.acquire()
         return r
 
+    def notify(self, n=1):
+        for tok in self.waiters[:n]:
+            tok[0] = True
+        del self.waiters[:n]
+        if self.on: self.on("notify", n)
+
     def notify_all(self):
         self.gen += 1
+        for tok in self.waiters:
+            tok[0] = True
+        del self.waiters[:]
         if self.on: self.on("notify_all", None)
 
 
